@@ -398,7 +398,7 @@ def wrappers(ctx: Ctx) -> None:
 
 def shard(ctx: Ctx) -> None:
     rng = ctx.rng.__class__(f"C11/{ctx.seed}")
-    n = 40000 if ctx.thorough else 4000
+    n = 120000 if ctx.thorough else 16000
     for i in range(n):
         script = gen_script(rng, "noise" if i % 5 == 0 else "plain")
         if ctx.mine(i):
